@@ -77,6 +77,40 @@ Theorem C07_roundtrip :
 Proof. exact (fun F pf ff is_print H1 H2 H3 => roundtrip pf ff is_print H1 H2 H3). Qed.
 Print Assumptions C07_roundtrip.
 
+(** Exactness: if every number literal of the value is canonical - [ff]
+    writes for the float [pf] reads from it the literal itself, which is
+    true of the shortest spelling json.Marshal writes and is checked on every
+    literal of every run - then the JSON handed to json.Unmarshal is, read by
+    the reference parser, EXACTLY the original tree (keys sorted, as
+    json.Marshal sorts them): no number is respelt.  So decoding into the
+    same Go type gives what encoding/json's own Marshal/Unmarshal round trip
+    gives, and comparing with reflect.DeepEqual is justified wherever that is
+    the identity. *)
+Theorem C07_roundtrip_exact :
+  forall (F : Type) (pf : list N -> option F) (ff : F -> list N) (is_print : N -> bool),
+  is_print 10 = false ->
+  (forall f, is_json_number (ff f) = true) -> (forall f r, ff f <> 45 :: r) ->
+  forall v, wfpb v = true -> fokb pf v = true -> all_nums (canon_num pf ff) v ->
+  exists out, unmarshal pf ff (print_doc is_print v) = Ok (UOk out) /\ json_parse out = Some (jv v).
+Proof. exact (fun F pf ff is_print H1 H2 H3 => roundtrip_exact pf ff is_print H1 H2 H3). Qed.
+Print Assumptions C07_roundtrip_exact.
+
+(** Any reader of the JSON text (the caller's type: struct with tags, map,
+    pointer, []byte, json.Number ...) that does not depend on the spelling of
+    a float reads after the round trip what it reads from json.Marshal's own
+    output. *)
+Theorem C07_roundtrip_any_decoder :
+  forall (F : Type) (pf : list N -> option F) (ff : F -> list N) (is_print : N -> bool),
+  is_print 10 = false ->
+  (forall f, is_json_number (ff f) = true) -> (forall f r, ff f <> 45 :: r) ->
+  forall (A : Type) (dec : jvalue -> A) v,
+  (forall a b, jrel pf ff a b -> dec a = dec b) ->
+  wfpb v = true -> fokb pf v = true ->
+  exists out j', unmarshal pf ff (print_doc is_print v) = Ok (UOk out) /\
+    json_parse out = Some j' /\ dec j' = dec (jv v).
+Proof. exact (fun F pf ff is_print H1 H2 H3 A dec v => roundtrip_decoder pf ff is_print H1 H2 H3 dec v). Qed.
+Print Assumptions C07_roundtrip_any_decoder.
+
 (** The source read on this run accepts '+' and '-' as exponent signs, as the
     lexer model does. *)
 Theorem C07_source_agrees_with_model :
@@ -111,6 +145,14 @@ Example C07_nonvacuous :
                         JNum [57;50;50;51;51;55;50;48;51;54;56;53;52;55;55;53;56;48;57]]);
                  ([122], JObj [([95; 49], JBool false); ([107], JNull); ([120], JArr [])]) ]).
 Proof. vm_compute. repeat split. Qed.
+
+(** The hypothesis of the exactness theorem holds for the example. *)
+Example C07_exact_example : all_nums (canon_num ex_pf (fun t => t)) ex_value.
+Proof.
+  apply all_nums_global. intros u f H. unfold ex_pf in H.
+  destruct (list_N_eqb u [49; 46; 53]) eqn:E1; [apply list_N_eqb_true in E1; congruence|].
+  destruct (list_N_eqb u [49; 101; 43; 50; 49]) eqn:E2; [apply list_N_eqb_true in E2; congruence|discriminate].
+Qed.
 
 Example C07_exponent_plus : (* "1e+06" used to be three tokens *)
   jsonx_raw_tokens [49; 101; 43; 48; 54; 10]
